@@ -283,7 +283,7 @@ def parse_fields(fields: Dict, context: ParseContext) -> List[FieldFactory]:
         ), "Fields should be a dictionary (should not start with -) "
 
         return [
-            parse_field(name, definition, context)
+            parse_field(_coerce_to_string(name, context), definition, context)
             for name, definition in fields.items()
             if name != "__line__"
         ]
